@@ -77,6 +77,17 @@ structure StepKind where
   implicitD : Mask
   /-- `d_*`/`s_*` arguments an element of which `initialize` / `stage*` use as an index -/
   idx : Mask
+  /-- the stages `<s>` for which the stepper has a Python-level `py_<s>` -/
+  pyStages : List String
+  deriving Repr
+
+/-- an integrator class: the `self.<member>` names its `one_timestep` uses that
+the template of the generated `Integrator` class
+(pysph/sph/integrator_cython.mako) does not define by itself — the stepper
+method wrappers `initialize`, `stage1`, … -/
+structure IntegKind where
+  name : String
+  calls : List String
   deriving Repr
 
 structure EqInst where
@@ -104,13 +115,14 @@ structure ArrTypes where
 /-- what one configuration yields: the arrays after `setup_properties`
 (name id, properties ∪ constants), the equations of `get_equations` (all
 stages and groups flattened, in order), the integrator's steppers
-(stepper kind, array index), and the C types of every array's properties
-(parallel to `arrays`) -/
+(stepper kind, array index), the C types of every array's properties
+(parallel to `arrays`), and the integrator kind -/
 structure Body where
   arrays : List (Nat × Mask)
   eqs : List EqInst
   steppers : List (Nat × Nat)
   types : List ArrTypes
+  integ : Nat
   deriving Repr
 
 /-- the option grid of one scheme: `bodyOf` has one entry per grid point in
@@ -277,6 +289,57 @@ def typesOk (kinds : List EqKind) (sk : List StepKind) (b : Body) : Bool :=
   subsetB (idxUsed kinds sk b) (intKnown b) &&
   ((idxUsed kinds sk b &&& floatKnown b) == 0)
 
+/-! ## the integrator's stages: what the generated `Integrator` class has
+
+pysph/sph/integrator_cython_helper.py : get_stepper_method_wrapper_names — the
+generated cdef class gets one wrapper `cdef <m>(self)` for every `<m>` that is
+`initialize` / `stage*` of SOME stepper, or for which some stepper has
+`py_<m>`; get_timestep_code pastes the body of the integrator's `one_timestep`
+into that class unchanged.  A `self.stage3()` in that body without a wrapper
+`stage3` still compiles (attribute lookup on a cdef class at run time) and
+raises AttributeError in the first time step. -/
+
+/-- wrappers one stepper contributes -/
+def stepWrappers (k : StepKind) : List String := k.methods.map (·.1) ++ k.pyStages
+
+def wrappersOf (sk : List StepKind) (st : Nat × Nat) : List String :=
+  match sk[st.1]? with
+  | some k => stepWrappers k
+  | none => []
+
+/-- `get_stepper_method_wrapper_names()` (as a list, with repetitions) -/
+def wrapperNames (sk : List StepKind) (b : Body) : List String :=
+  b.steppers.flatMap (wrappersOf sk)
+
+/-- **the stage check**: every member `one_timestep` uses beyond the template's
+own is a generated wrapper -/
+def stagesOk (ik : List IntegKind) (sk : List StepKind) (b : Body) : Bool :=
+  match ik[b.integ]? with
+  | some i => i.calls.all (fun m => (wrapperNames sk b).contains m)
+  | none => false
+
+/-! ## `extra_steppers`
+
+Every shipped `configure_solver` builds the integrator's steppers as
+
+    steppers = {}
+    if extra_steppers is not None: steppers.update(extra_steppers)
+    for name in <the arrays the scheme steps>:
+        if name not in steppers: steppers[name] = <default stepper>()
+
+`withExtra b ex` is that construction on a table entry `b` (which records the
+defaults, `extra_steppers=None`): the caller's steppers `ex` (stepper kind,
+array) first, then the defaults of the arrays the caller did not mention. -/
+
+def overridden (ex : List (Nat × Nat)) (st : Nat × Nat) : Bool := ex.any (fun e => e.2 == st.2)
+
+def withExtra (b : Body) (ex : List (Nat × Nat)) : Body :=
+  { b with steppers := ex ++ b.steppers.filter (fun st => !overridden ex st) }
+
+/-- the steppers of array `a` only -/
+def onlyArray (b : Body) (a : Nat) : Body :=
+  { b with steppers := b.steppers.filter (fun st => st.2 == a) }
+
 /-! ## grids -/
 
 /-- number of points of the grid -/
@@ -384,6 +447,22 @@ def AllTyped : List (Nat × Mask) → List ArrTypes → Prop
 
 def TypesOk (kinds : List EqKind) (sk : List StepKind) (b : Body) : Prop :=
   AllTyped b.arrays b.types ∧ ∀ p, IndexUsed kinds sk b p → KnownIntegral b p
+
+/-! ### specification of the stage check -/
+
+/-- stepper kind `k` makes the code generator emit the wrapper `m` -/
+def Wraps (k : StepKind) (m : String) : Prop := (∃ x ∈ k.methods, x.1 = m) ∨ m ∈ k.pyStages
+
+/-- every member of the generated Integrator class that the integrator's
+`one_timestep` uses exists: it is a wrapper contributed by some stepper of the
+configuration -/
+def StagesProvided (ik : List IntegKind) (sk : List StepKind) (b : Body) : Prop :=
+  ∃ i, ik[b.integ]? = some i ∧
+    ∀ m ∈ i.calls, ∃ st ∈ b.steppers, ∃ k, sk[st.1]? = some k ∧ Wraps k m
+
+def PointStagesOk (ik : List IntegKind) (sk : List StepKind) (bodies : List Body)
+    (g : SchemeGrid) (i : Nat) : Prop :=
+  ∃ c, g.bodyOf[i]? = some c ∧ (c = 0 ∨ ∃ b, bodies[c - 1]? = some b ∧ StagesProvided ik sk b)
 
 def PointTypesOk (kinds : List EqKind) (sk : List StepKind) (bodies : List Body)
     (g : SchemeGrid) (i : Nat) : Prop :=
